@@ -168,7 +168,7 @@ def run_bane(ctx, name, spec, sched=None, fault=None):
             res = {"outcome": "raised", "error": "child died", "text": "rc=%s" % proc.returncode}
     res["wall"] = round(time.time() - t0, 2)
     res["events"] = events
-    res["shmleft"] = left
+    res["shmleft"] = sorted(set(left) | set(res.get("shm_after_call", [])))
     res["dir"] = d
     return res
 
